@@ -37,6 +37,32 @@ def gen_block(rng, depth, in_ns, counter, maxlen=3):
     return out
 
 
+def gen_directed(rng, counter):
+    """several writers target the *same* namespace path with different names; each
+    writer places a scan / vmap / nothing at a random point of the path, so merges of
+    stacked scan states into already populated nested dictionaries are exercised"""
+    path = [rng.randrange(3) for _ in range(rng.randint(1, 3))]
+    out = []
+    for w in range(rng.randint(2, 4)):
+        counter[0] += 1
+        j = rng.randint(0, len(path))
+        if rng.random() < 0.25:
+            sub = path[:rng.randint(1, len(path))]      # a writer at a prefix of the path
+            j = min(j, len(sub))
+        else:
+            sub = path
+        inner = [["save", w % 3 if rng.random() < 0.8 else rng.randrange(3), counter[0]]]
+        for nsid in reversed(sub[j:]):
+            inner = [["ns", nsid, inner]]
+        kind = rng.choice(["scan", "scan", "vmap", "none"])
+        if kind != "none":
+            inner = [[kind, rng.choice([1, 2, 3]), inner]]
+        for nsid in reversed(sub[:j]):
+            inner = [["ns", nsid, inner]]
+        out += inner
+    return out
+
+
 def run_block(block, sc, lc, nv, x):
     """returns the sum of the saved values (so the function result depends on the program)"""
     tot = x * 0.0
@@ -82,7 +108,7 @@ def main():
     rng = random.Random(sd)
     cases = []
     for _ in range(n):
-        block = gen_block(rng, 3, False, [0])
+        block = gen_directed(rng, [0]) if _ % 3 == 2 else gen_block(rng, 3, False, [0])
         f = lambda x: run_block(block, jnp.float32(0.0), jnp.float32(0.0), 0, x)  # noqa: E731
         c = {"block": block}
         try:
